@@ -7,7 +7,7 @@ From Flocq Require Import Core BinarySingleNaN.
 Import ListNotations.
 Require Import GV.Gen.Consts GV.Model.Outcome GV.Model.F32 GV.Model.Kinematics GV.Model.Packets GV.Spec.C19_spec
   GV.Proofs.F32_lemmas GV.Proofs.C19_rotation GV.Proofs.C19_triangle GV.Proofs.C19_profile
-  GV.Proofs.C19_actuator GV.Proofs.C19_deadband GV.Proofs.C19_chain GV.Proofs.C13_roundtrip.
+  GV.Proofs.C19_actuator GV.Proofs.C19_deadband GV.Proofs.C19_chain GV.Proofs.C13_roundtrip GV.Proofs.C19_cosines_f32.
 
 (* ---- shortest_rotation: for EVERY finite f32 d >= -2*PI_f ---- *)
 Theorem C19_shortest_rotation : forall d : f32,
@@ -42,6 +42,22 @@ Theorem C19_law_of_cosines_f32_refuted :
     /\ (Z.abs (tri_N t) < tri_D t)%Z /\ loc_is_nan a b c = true.
 Proof. exact loc_strict_refuted. Qed.
 Print Assumptions C19_law_of_cosines_f32_refuted.
+
+(* ... but with an explicit margin it is TRUE in binary32, in both directions: for EVERY triple of
+   positive floats of moderate magnitude (2^-41 <= x < 2^41), with N = a^2+b^2-c^2, D = 2ab,
+   S = a^2+b^2+c^2 computed exactly:  D + S <= 2^21 (D - |N|)  (the triangle exists and
+   1 - |cos| >= 2^-21 (1 + S/D))  implies the argument of acos is a finite float in [-1, 1];
+   D + S <= 2^21 (|N| - D)  (no triangle, same margin) implies it is outside [-1, 1] (or not finite).
+   This is the NaN half of the reading the check enforces on the implementation (loc_spec);
+   K03 is exactly the gap between the two margins. *)
+Theorem C19_law_of_cosines_f32_margin : forall (a b c : f32) t,
+  tri_moderate a b c = true -> tri_ints a b c = Some t ->
+  (tri_safe t = true -> loc_is_nan a b c = false) /\ (tri_safely_none t = true -> loc_is_nan a b c = true).
+Proof. exact loc_margin_spec_nan. Qed.
+Check C19_law_of_cosines_f32_margin : forall (a b c : f32) t,
+  tri_moderate a b c = true -> tri_ints a b c = Some t ->
+  (tri_safe t = true -> loc_is_nan a b c = false) /\ (tri_safely_none t = true -> loc_is_nan a b c = true).
+Print Assumptions C19_law_of_cosines_f32_margin.
 
 (* ---- Linear::update, for EVERY profile with finite gain >= 0 and 0 <= offset <= 32767 and EVERY
    finite error: no panic, a finite value, equal to +-lu_real; lu_real is monotone in the error
